@@ -9,6 +9,11 @@ Defect 4eea17b: every failure of reading a source file (I/O and decoding class) 
 call sites of the call graph of expand_run_space and must leave it as the configuration error named by the `except`
 clauses around the CLI's expand_run_space call (C08-D4-read-errors-converted, sibling of the parser-error conversion
 in C08-D4-error-classes; re-applied by C17).
+Round 7: rejection and the union of keys are for-all statements over the declared blocks - the loop over the blocks
+(expansion) and the loop that builds the block objects (parser, found by role) are left only by exhaustion or by
+raising, and no iteration gets round the collection / duplicate test / construction (C08-D2-every-block-examined,
+C08-D2-every-block-built); rename is one simultaneous mapping: the mapping the renamed columns are filed into starts
+without columns under their old names (C08-D1-rename-simultaneous).
 
 Everything is decided on the *normal form* of the three anchored functions (private helpers inlined,
 module constants substituted, if/else merged, accumulate loops turned into comprehensions, pure
@@ -491,6 +496,46 @@ class Flow:
             if n in seen:
                 return False, self.g.path_to(seen, n)[-6:]
         return True, []
+
+
+def loop_leavers(flow: "Flow", loop: ast.AST) -> List[ast.AST]:
+    """The statements over which the walk of *loop* ends before its iterable is exhausted, other than by raising:
+    the last statement inside the loop on every path from the start of an iteration to something outside it
+    (`break`, `return`, a `continue` / fall-through of an *enclosing* loop is outside too)."""
+    g = flow.g
+    inside = {id(x) for x in ast.walk(loop)}
+    out: List[ast.AST] = []
+    for lid in g.nodes_for(loop):
+        todo = [t for t, lab in g.succ[lid] if lab == "T" and t != lid]
+        seen = set(todo) | {lid}
+        while todo:
+            n = todo.pop()
+            for t, _lab in g.succ[n]:
+                if t in (g.exc_exit, g.base_exit):
+                    continue
+                a = g.nodes[t].ast
+                if a is None or id(a) not in inside:
+                    # control is outside the loop (its code is not expanded: what follows the loop is not "leaving" it)
+                    via = g.nodes[n].ast
+                    if via is not None and not any(via is o for o in out):
+                        out.append(via)
+                elif t not in seen:
+                    seen.add(t)
+                    todo.append(t)
+    return out
+
+
+def loop_bypass(flow: "Flow", loop: ast.AST, nodes: Sequence[int] = (), edges: Sequence[Tuple[int, str]] = ()) -> Optional[List[str]]:
+    """A path from the start of an iteration of *loop* to the next iteration that avoids all of *nodes* and
+    *edges* (None when every iteration that is followed by another one passes one of them)."""
+    g = flow.g
+    blocked = set(nodes)
+    for lid in g.nodes_for(loop):
+        starts = [t for t, lab in g.succ[lid] if lab == "T" and t not in blocked]
+        seen = g.reach(starts, blocked=blocked - {lid}, blocked_edges=set(edges))
+        if lid in seen and seen[lid] is not None:
+            return g.path_to(seen, lid)[-6:]
+    return None
 
 
 def _source_columns(repo: Repo, R: Report) -> None:
@@ -1269,6 +1314,56 @@ def _parse_time_keys_in(repo: Repo, R: Report, rule: str, mod, fn: ast.AST, clas
                 kind = "a select entry (the column's name in the file, before rename)" if bad[0] == "select" else "a rename key / target taken on its own (a rename applies only to a column that is present and selected)"
                 what = f"the rejecting test `{_u(op)[:60]}` is fed by `{_u(bad[1])[:50]}`: {kind} is compared as if it were a key the block contributes - a valid specification whose selected column is renamed away from a name used by another block is rejected while it is parsed, although expand_run_space expands it to the documented list (select, then rename; duplicates are judged after rename)"
             R.check(bad is None, rule, mod.rel, getattr(fn, "name", "?"), f"rejecting key test `{_u(op)[:60]}` reads only keys the expansion certainly produces", what, getattr(bad[1] if bad else op, "lineno", getattr(at, "lineno", 0)))
+
+
+def _built_blocks_exhaustive(repo: Repo, R: Report) -> None:
+    """The other side of C08-D2-every-block-examined: a function that builds the block objects of a specification
+    in a loop (the YAML parser; found by role - it calls the constructor of the dataclass that carries the inline
+    context and the source of a block) builds one for every declared entry.  The loop is left only by exhaustion or
+    by raising, and an iteration that is followed by another one has built its block: a declared block that is
+    skipped (or everything after some block) contributes no keys and is never validated by the expansion, and an
+    empty by_position block - zero runs, it empties the whole expansion - would vanish."""
+    classes = _spec_classes(repo)
+    blk_classes = [(m, c, f, o) for m, c, f, o in classes.values() if "context" in f and "source" in f]
+    if not blk_classes:
+        raise AnalysisError("run-space block dataclass (fields context / source) not found from the specification class")
+    rule = R.rule("C08-D2-every-block-built", "a function that builds the block objects of a specification in a loop over the declared entries (configuration parser) builds one for every entry: the loop is left only by exhaustion or by raising, and every iteration that is followed by another one has passed the construction - no declared block is dropped before the expansion sees it (its keys, its length / duplicate / missing-column errors and, for an empty by_position block, its zero runs are part of the documented result)", 1)
+    names = {c.name for _m, c, _f, _o in blk_classes}
+    for mod in list(repo.modules.values()):
+        if not any(nm in mod.source for nm in names):
+            continue
+        for qn, node in list(mod.defs.items()):
+            if not isinstance(node, FuncNode):
+                continue
+            if not any(isinstance(c, ast.Call) and _last(dotted_name(c.func)) in names for c in walk_no_nested(node)):
+                continue
+            repo.consulted.add(mod.rel)
+            try:
+                fn = nfunc(repo, mod.rel, qn, copyprop="all")
+            except AnalysisError:
+                raise
+            except Exception:
+                fn = node
+            FP: Optional[Flow] = None
+            for c in walk_no_nested(fn):
+                if not isinstance(c, ast.Call) or not isinstance(c.func, (ast.Name, ast.Attribute)):
+                    continue
+                r = repo.resolve_name(mod, c.func, mod.tree)
+                if r is None or not any(r[1] is bc[1] for bc in blk_classes):
+                    continue
+                loops = [a for a in ancestors(c) if isinstance(a, (ast.For, ast.While))]
+                if not loops:
+                    continue  # one object, or a comprehension (exhaustive by construction)
+                lp = loops[-1]
+                FP = FP or Flow(fn)
+                fname = getattr(fn, "name", qn)
+                leavers = loop_leavers(FP, lp)
+                for lv in leavers:
+                    R.violation(rule, mod.rel, fname, f"`{norm(lv)[:60]}` ends the loop that builds the blocks", "the loop that builds one block object per declared entry is left before the entries are exhausted: the remaining declared blocks never reach the expansion (their keys are missing from every run and nothing in them is validated)", getattr(lv, "lineno", lp.lineno))
+                if not leavers:
+                    R.ok(rule, mod.rel, fname, f"`{norm(lp)[:60]}` is left only by exhaustion or by raising")
+                path = loop_bypass(FP, lp, nodes=[FP.nid(c)])
+                R.check(path is None, rule, mod.rel, fname, f"every entry walked by `{norm(lp)[:50]}` is built into a block", "a declared block can be passed without a block object being built for it: the block is dropped before the expansion sees it (its keys are missing from every run, its errors go unreported, an empty by_position block no longer yields zero runs)", c.lineno, path or [])
 
 
 def _cell_converters(repo: Repo, R: Report) -> None:
@@ -3348,10 +3443,13 @@ def run(repo: Repo, R: Report) -> None:
             return None
         return grow or None
 
+    across_grow: List[ast.AST] = []  # where the keys of the current block are remembered for the later blocks
+
     def is_across(a: ast.AST, b: ast.AST, at: ast.AST) -> bool:
         for seen, cur in ((a, b), (b, a)):
             grow = accumulator(seen)
             if grow and accumulator(cur) is None and prov(cur, at) == (CTX | SRC) and all(prov(x, site) == (CTX | SRC) for site, x in grow):
+                across_grow.extend(site for site, _x in grow if not any(site is s for s in across_grow))
                 return True
         return False
 
@@ -3366,6 +3464,8 @@ def run(repo: Repo, R: Report) -> None:
     for lp in [n for n in walk_no_nested(ls) if isinstance(n, ast.For)]:
         stores = list(keyed_stores(lp))  # however the store is spelled (item store, update, spread, ...)
         renamed_maps = {m for s, m, k in stores if any(f"{src_p}.rename" in _u(v) for v, _st in FL.values(k, s))}
+        # ... or the key is the loop variable of a walk over the rename entries themselves (`for old, new in src.rename.items()`)
+        renamed_maps |= {m for s, m, k in stores if isinstance(k, ast.Name) and any(d[0] == "iter" and f"{src_p}.rename" in _u(d[1].iter) for d in FL.defs(k.id, s))}
         for s, m, k in stores:
             if m in renamed_maps:
                 rename_stores.append((lp, s, m, k))
@@ -3516,6 +3616,32 @@ def run(repo: Repo, R: Report) -> None:
         ok = ok and good and bool(users)
     R.check(ok, r_g, RS, LPS, "select: missing columns raise", "selecting a column the source does not have is no longer rejected", ls.lineno, path)
 
+    # rename is one simultaneous mapping of the columns: the mapping the renamed columns are filed into (the one the
+    # collision test looks into) holds re-filed columns only
+    r_sim = R.rule("C08-D1-rename-simultaneous", "rename is applied as declared - one simultaneous mapping old name -> new name over the loaded (selected) columns: the mapping the renamed columns are filed into, which is also the one the collision test looks into, starts empty; it is not the loaded columns themselves nor a copy of them, in which the entries would be applied one after the other to columns still waiting to be renamed (a swap {x: y, y: x} or a rotation is then rejected as a collision although no key is duplicated, a chain {a: b, b: c} depends on the order of the entries or renames a column twice)", 1)
+    judged_maps: Set[str] = set()
+    for lp, s_store, mapping, _key in rename_stores:
+        if mapping in judged_maps:
+            continue
+        judged_maps.add(mapping)
+        in_lp = {id(x) for x in ast.walk(lp)}
+        holds_old: Optional[ast.AST] = None
+        for d in FL.defs(mapping, lp):
+            st = d[-1]
+            if id(st) in in_lp:
+                continue
+            if d[0] != "val" or is_empty_container(d[1]):
+                continue
+            core = strip_keyset(d[1])
+            if isinstance(core, ast.Name):
+                vs = FL.values(core, st)
+                if core.id != mapping and not mutated_in(ls, core.id) and vs and all(v is not core and is_empty_container(v) for v, _s in vs):
+                    continue  # a copy of a mapping that is empty
+                holds_old = st
+            elif isinstance(core, ast.Call) and call_attr(core) == LSF:
+                holds_old = st
+        R.check(holds_old is None, r_sim, RS, LPS, f"the mapping `{mapping}` the renamed columns are filed into starts without columns under their old names", f"`{norm(holds_old)[:70] if holds_old is not None else ''}`: the mapping the renamed columns are filed into starts out holding the loaded columns under their old names, so the rename entries are applied one after the other to columns still waiting to be renamed: the collision test rejects a swap / rotation ({{x: y, y: x}}) that duplicates no key, and a chain ({{a: b, b: c}}) depends on the order of the entries or renames a column twice - every run then carries a wrong key", getattr(holds_old, "lineno", lp.lineno))
+
     # guard dominance of the positional expansion
     site_ids = [FE.nid(s) for s in positional_sites]
     holds, path = FE.dominated(site_ids, g_ee) if g_ee else (False, [])
@@ -3584,6 +3710,24 @@ def run(repo: Repo, R: Report) -> None:
         R.violation(r_g, RS, ERS, "neutral [{}] replaces an empty expansion", "the neutral run [{}] replaces an *empty expansion* (e.g. a key with an empty value list) instead of an *absent* side: runs appear that lack declared keys and empty blocks no longer yield zero runs", b.lineno)
     if not neutral_bad:
         R.check(neutral_ok >= 2, r_g, RS, ERS, "[{}] only when the entries mapping is empty (context, source)", "neutral element selection not recognised", fn.lineno)
+
+    # ------------------------------------------------------------------ D2 every declared block is examined
+    r_every = R.rule("C08-D2-every-block-examined", "the walk over the declared blocks ends only when the blocks are exhausted or a block is rejected (raise): no break / return leaves it early, and every iteration that is followed by another one has contributed its run list, has passed the duplicate-key test against the earlier blocks and has left its keys for the later ones - rejection (mismatched lengths, duplicate keys, missing columns / files) and the union of keys are for-all statements over the blocks and do not depend on what an earlier block expanded to", 3)
+    leavers = loop_leavers(F, bl)
+    for lv in leavers:
+        R.violation(r_every, RS, ERS, f"`{norm(lv)[:60]}` ends the walk over the declared blocks", "the loop over the declared blocks is left before the blocks are exhausted: the remaining blocks are neither loaded nor validated (mismatched lengths, duplicate keys, missing columns / source files in them are accepted instead of rejected) and contribute neither keys nor metadata; the outcome depends on the order of the blocks", getattr(lv, "lineno", bl.lineno))
+    if not leavers:
+        R.ok(r_every, RS, ERS, "the loop over the declared blocks is left only by exhaustion or by raising")
+    if len(apps) == 1 and block_loop_of(apps[0][0]) is bl:
+        path = loop_bypass(F, bl, nodes=[F.nid(apps[0][0])])
+        R.check(path is None, r_every, RS, ERS, "every block that is passed contributes its run list", "a block can be passed (the loop goes on to the next one) without its run list being collected: the block's keys are missing from every run and an empty block no longer empties the product", apps[0][0].lineno, path or [])
+    if g_across:
+        inner = [(lid, "F") for gn, _e in g_across for lp in ancestors(F.g.nodes[gn].ast) if isinstance(lp, (ast.For, ast.While)) and lp is not bl and id(lp) in in_bl for lid in F.g.nodes_for(lp)]
+        path = loop_bypass(F, bl, edges=list(g_across) + inner)
+        R.check(path is None, r_every, RS, ERS, "every block that is passed went through the duplicate-key test across blocks", "a block can be passed without the duplicate-key test against the earlier blocks: a key declared in two blocks is accepted for such a block (the later value silently overwrites the earlier one)", F.g.nodes[g_across[0][0]].ast.lineno, path or [])
+        if across_grow:
+            path = loop_bypass(F, bl, nodes=[F.nid(site) for site in across_grow])
+            R.check(path is None, r_every, RS, ERS, "every block that is passed leaves its keys for the later blocks", "a block can be passed without its keys being remembered: a later block declaring one of them again is no longer rejected", across_grow[0].lineno, path or [])
 
     # ------------------------------------------------------------------ D3 cap before materialisation
     r_cap = R.rule("C08-D3-cap-before-materialisation", "every statement that materialises something of product size is dominated by a test `size > spec.max_runs` (size computed from len()s only, directly or in a helper that raises) whose failing branch raises RunSpaceMaxRunsExceededError", 4)
@@ -3930,6 +4074,7 @@ def run(repo: Repo, R: Report) -> None:
     _record_units(repo, R)
     _declared_defaults(repo, R)
     _parse_time_keys(repo, R)
+    _built_blocks_exhaustive(repo, R)
     read_errors_rule(repo, R)
 
     # ------------------------------------------------------------------ D4 error classes
